@@ -48,6 +48,33 @@ def extract(ctx):
                 if c is not None and "index += ','" in _src(ast.Module(body=c.body, type_ignores=[])):
                     single_comma = True
 
+    # _format_path(t_path, root): is the root passed in and written as (the start of) the first part?
+    root_aware = False
+    fp = find_def(tree, '_format_path')
+    pr = find_def(tree, '__repr__', cls='Path')
+    if fp is None or pr is None or ft is None:
+        P.add('_format_path / Path.__repr__ not found')
+    else:
+        fp_src = _src(fp)
+        new_shape = all(x in fp_src for x in [
+            'first_root = root if root is not T else None',
+            'if cur_t_path or (first_root is not None and (not path_parts)):',
+            'if not path_parts and first_root is not None:',
+            '_format_t(part, root if n == 0 else T)',
+            'return _format_t(cur_t_path, root)'])
+        old_shape = ([a.arg for a in fp.args.args] == ['t_path'] and '_format_t(part)' in fp_src
+                     and 'return _format_t(cur_t_path)' in fp_src and 'if cur_t_path:' in fp_src)
+        repr_new = 'return _format_path(self.path_t.__ops__[1:], self.path_t.__ops__[0])' in _src(pr)
+        repr_old = 'return _format_path(self.path_t.__ops__[1:])' in _src(pr)
+        t_new = 'return _format_path(path, root)' in _src(ft)
+        t_old = 'return _format_path(path)' in _src(ft)
+        if new_shape and repr_new and t_new:
+            root_aware = True
+        elif old_shape and repr_old and t_old:
+            root_aware = False
+        else:
+            P.add('_format_path / Path.__repr__: unrecognised shape')
+
     def dict_names(fn_name):
         fn = find_def(tree, fn_name, cls='TType')
         if fn is None:
@@ -98,6 +125,7 @@ def extract(ctx):
         ('fmtDunderGuard', 'Bool', dunder),
         ('fmtTupleEmptyParen', 'Bool', empty_paren),
         ('fmtSingletonComma', 'Bool', single_comma),
+        ('fmtPathRootAware', 'Bool', root_aware),
         ('getstateRoots', 'List String', getstate),
         ('setstateRoots', 'List String', setstate),
         ('pathGetitemViaSteps', 'Bool', via_steps),
